@@ -244,7 +244,8 @@ func (tc *tokenConverter) convertSingleToken(t models.TokenWithSpan) (token.Toke
 		// needs as specific types. Data type keywords (VARCHAR, INTEGER, etc.)
 		// are intentionally left as identifiers since the parser handles them
 		// via isDataTypeKeyword() with literal fallback.
-		if modelType := getIdentifierKeywordType(t.Token.Value); modelType != models.TokenTypeUnknown {
+		// (a quoted identifier - `key` - stays an identifier whatever it spells)
+		if modelType := getIdentifierKeywordType(t.Token.Value); modelType != models.TokenTypeUnknown && t.Token.Quote == 0 {
 			return token.Token{Type: modelType, Literal: t.Token.Value}, nil
 		}
 		return token.Token{Type: models.TokenTypeIdentifier, Literal: t.Token.Value}, nil
